@@ -66,6 +66,23 @@ theorem c04_arrives :
 `wait_for_read` and `NCReadStream::eof`): amount-then-liveness is unsound. -/
 theorem c04_amount_first_is_unsound : ¬ SoundReader [.avail, .alive] := unsound_availFirst
 
+/-- After the writer has gone, every completed reader-side decision answers exactly `queued < need`, for every
+request and independently of earlier requests on the same stream (a "never" for 10 samples with 3 queued is
+followed by "go on" for a request of 3). The real streams are asked such sequences on one handle in every run
+(`waits`), so a verdict remembered across calls is a mismatch. -/
+theorem c04_exact_after_close (s : Sh) (sched : List (Option Env)) (need : Nat) (hd : s.peerAlive = false) :
+    ((exec Gen.readWait s {} sched).2.2 = [] →
+      verdict (exec Gen.readWait s {} sched).2.1 need = decide (s.avail < need)) ∧
+    ((exec Gen.ncReadWait s {} sched).2.2 = [] →
+      verdict (exec Gen.ncReadWait s {} sched).2.1 need = decide (s.avail < need)) ∧
+    ((exec Gen.readEof s {} sched).2.2 = [] →
+      verdict (exec Gen.readEof s {} sched).2.1 need = decide (s.avail < need)) :=
+  ⟨exact_after_close _ (by decide) s sched need hd, exact_after_close _ (by decide) s sched need hd,
+   exact_after_close _ (by decide) s sched need hd⟩
+
+example : verdict (exec Gen.readWait ⟨3, false⟩ {} [none, none]).2.1 10 = true ∧
+    verdict (exec Gen.readWait ⟨3, false⟩ {} [none, none]).2.1 3 = false := by decide
+
 /-! Non-vacuity: the schedule that breaks the other order is harmless for the generated one. -/
 example : (exec Gen.readWait ⟨0, true⟩ {} [none, some (.add 5), some .drop, none]).2.2 = [] := by decide
 example : verdict (exec Gen.readWait ⟨0, true⟩ {} [none, some (.add 5), some .drop, none]).2.1 1 = false := by
